@@ -19,13 +19,22 @@ RULE = (
     'cells are exact) re-expressed in every cell of the grid (unit per argument x dtype in {float64, float32, '
     'int64, int32} per argument); the canonical-unit float64 call of the same kernel is the baseline; quick = '
     'random sample of cells, thorough = the full Cartesian grid (capped per kernel, cap reported); distinct = '
-    '(kernel, units, dtypes) cells; trivial = the canonical cell itself'
+    '(kernel, units, dtypes) cells; trivial = the canonical cell itself. Forced in every run: (a) each kernel with '
+    'a data operand also with that operand (each alone / all together) as BINNED event data (6 events in 4 bins, one '
+    'empty) next to per-bin or 0-D dense operands, and dense with 0-D operands, x the full dtype product of its '
+    'non-vector operands (of its data operands when there are more than three; units drawn per cell), baseline = dense per-event canonical call; (b) the gravity kernels '
+    'with incident beams tilted 1e-12..3e-3 rad out of the plane perpendicular to gravity (one per decade, both '
+    'signs, axis-aligned and rotated frames, 1-d and 2-d layouts) x every (incident, scattered) beam-unit pair'
 )
 ASSUMPTIONS = [
     'the canonical-unit float64 result of each kernel is correct (decided by C01/C03/C04/C05/C08)',
     '"no more than rounding" is quantified as in C01: 1e-11 relative in double, 1e-5 when any operand is single '
     'precision, times the condition number of the definition',
     'integer cells are generated only where the value is an exact integer below 2^26 in that unit',
+    'nearly perpendicular beams: the unchanged tree switches implementation (yz variant: refuses) at a component '
+    "along gravity of 1e-10 in the beam's own unit; a geometry at or below that (to the rounding of the float64 dot "
+    'product) in any compared unit gets an allowance of 2 x its tilt, and a refusal that differs between units there '
+    'is undecided (DESIGN 9.2, C04 dispatch band)',
 ]
 TOL64, TOL32 = 1e-11, 1e-5
 
@@ -125,7 +134,7 @@ SPEC_BY_NAME = {s.name: s for s in SPECS}
 
 
 # --------------------------------------------------------- physical points ---
-def draw_point(rng, spec, n=6):
+def draw_point(rng, spec, n=6, force_integer=False):
     """Exact rational values per argument, in the canonical unit of its kind."""
     pt = {}
     for a in spec.args:
@@ -137,7 +146,7 @@ def draw_point(rng, spec, n=6):
             'time': [10**6, 1000, 1], 'length': [1000, 1, Fraction(1, 100)], 'wavelength': [10, 1, Fraction(1, 100)],
             'energy': [1000, 1, Fraction(1, 1000)], 'Q': [1, Fraction(1, 10), Fraction(1, 10)],
         }
-        r = rng.random()
+        r = rng.random() * (0.8 if force_integer else 1.0)
         vals = []
         for _ in range(n):
             if a.kind == 'angle':
@@ -200,6 +209,131 @@ def make_var(vals, unit, dtype, vector=False, scalar=False, dim='x'):
     return sc.array(dims=[dim], values=np.asarray(vals), unit=unit, dtype=dtype)
 
 
+# ---------------------------------------------------------------- layouts ---
+# The kernels take dense variables and binned (event) variables alike (`_utils.elem_unit/elem_dtype`).  The
+# same physical point is therefore also presented with the data operand(s) as event data: 6 events in 4
+# bins over 'x' (one bin empty), the remaining operands dense with one value per bin or 0-D.  For such a
+# point every event sees the value of its bin's representative event in the non-event operands, so that the
+# dense per-event call in canonical units stays the baseline.
+EV_BEGIN = np.array([0, 3, 3, 5])
+EV_END = np.array([3, 3, 5, 6])
+EV_REP_BIN = [0, 0, 3, 5]  # per bin: the event whose values the dense operands take (empty bin: unobserved)
+EV_REP_EVENT = [0, 0, 0, 3, 3, 5]  # per event: that representative
+
+
+class Layout:
+    def __init__(self, binned=(), others='x', arrays=()):
+        # binned: operands given as event data; arrays: operands kept as dense 1-d arrays next to 0-D operands
+        self.binned, self.others, self.arrays = frozenset(binned), others, frozenset(arrays)
+        self.per_event = self.binned | self.arrays
+        assert others in ('x', 'per_bin', 'scalar') and (not self.binned or others != 'x')
+
+    @property
+    def default(self):
+        return not self.binned and self.others == 'x'
+
+    @property
+    def tag(self):
+        return ('events(' + ','.join(sorted(self.binned)) + ')' if self.binned else 'dense') + '/' + {
+            'x': 'arrays', 'per_bin': 'per-bin operands', 'scalar': '0-D operands'}[self.others]
+
+    def rep(self, n):
+        return {'x': list(range(n)), 'per_bin': EV_REP_EVENT, 'scalar': [0] * n}[self.others]
+
+
+DENSE = Layout()
+
+
+def layouts_of(spec):
+    """Every way the data operands of a kernel can be event data (each alone, all together) x dense operands
+    per bin / 0-D, plus dense data with 0-D operands."""
+    data = [a.name for a in spec.args if a.data]
+    if not data:
+        return []
+    sets = [(d,) for d in data] + ([tuple(data)] if len(data) > 1 else [])
+    return [Layout(s, o) for s in sets for o in ('per_bin', 'scalar')] + [Layout((), 'scalar', arrays=data)]
+
+
+def make_events(vals, unit, dtype):
+    data = sc.array(dims=['event'], values=np.asarray(vals), unit=unit, dtype=dtype)
+    return sc.bins(dim='event', data=data, begin=sc.array(dims=['x'], values=EV_BEGIN, unit=None, dtype='int64'),
+                   end=sc.array(dims=['x'], values=EV_END, unit=None, dtype='int64'))
+
+
+def desc(v):
+    d = describe(v)
+    if isinstance(v, sc.Variable) and v.bins is not None:
+        c = v.bins.constituents
+        d.update(events=describe(c['data']), begin=np.asarray(c['begin'].values).tolist(),
+                 end=np.asarray(c['end'].values).tolist())
+    return d
+
+
+def flat(var):
+    """(element unit, element dtype, element values in bin order) of a dense or binned result."""
+    if var.bins is None:
+        return var.unit, var.dtype, np.asarray(var.values)
+    c = var.bins.constituents
+    b, e = np.asarray(c['begin'].values).ravel(), np.asarray(c['end'].values).ravel()
+    idx = np.concatenate([np.arange(i, j) for i, j in zip(b, e, strict=True)]) if len(b) else np.zeros(0, dtype=int)
+    data = c['data']
+    return data.unit, data.dtype, np.asarray(data.values)[idx.astype(int)]
+
+
+def note_layout_classes(ctx, spec, layout, dtypes):
+    """Forced classes of the event-data / 0-D layouts (recorded when a monitor judged such a call)."""
+    data = [a.name for a in spec.args if a.data]
+    dense_scalars = [a.name for a in spec.args if not a.vector and a.name not in layout.binned]
+    if not layout.binned:
+        ctx.hit('dense data operand with 0-D other operands')
+        return
+    ctx.hit('event data with ' + ('per-bin' if layout.others == 'per_bin' else '0-D') + ' dense operands')
+    ev_dt = {dtypes[b] for b in layout.binned}
+    for dt in ev_dt:
+        ctx.hit('event data: ' + dt + ' events')
+    if ev_dt == {'float32'}:
+        others = {dtypes[nm] for nm in dense_scalars}
+        if others - {'float32'}:
+            ctx.hit('event data: float32 events with a float64/integer dense operand')
+        dense_data = {dtypes[nm] for nm in data if nm not in layout.binned}
+        if dense_data - {'float32'}:
+            ctx.hit('event data: float32 events with a dense DATA operand that is not float32 (contract: float64)')
+        if dense_data == {'float32'}:
+            ctx.hit('event data: float32 events with a float32 dense data operand (contract: float32)')
+    if len(layout.binned) > 1:
+        ctx.hit('event data: all data operands of a two-data-operand kernel are events')
+
+
+def layout_cells(rng, spec):
+    """For an event-data / 0-D layout: the full dtype product of the non-vector operands (of the data operands for
+    kernels with more than three, the others' dtypes drawn per cell), repeated to about 100 cells, each cell with
+    units drawn from those in which the point is exactly representable in that dtype (moderate units when a data
+    operand is float32, see F32_DOMAIN); the complete unit x dtype grid for small kernels."""
+    def cells(feasible):
+        grid = list(all_cells(spec))
+        if len(grid) <= 300:  # small kernels: the complete unit x dtype grid
+            return grid
+        out = []
+        scal = [a for a in spec.args if not a.vector]
+        if len(scal) > 3:  # the dtype product of the data operands, the other operands' dtypes drawn per cell
+            scal = [a for a in scal if a.data]
+        free = [a for a in spec.args if not a.vector and a not in scal]
+        for combo in list(itertools.product(DTYPES, repeat=len(scal))) * max(1, 96 // 4 ** len(scal)):
+            dtypes = {a.name: 'float64' for a in spec.args}
+            dtypes.update({a.name: d for a, d in zip(scal, combo, strict=True)})
+            dtypes.update({a.name: DTYPES[int(rng.integers(len(DTYPES)))] for a in free})
+            f32 = any(dtypes[a.name] == 'float32' for a in spec.args if a.data)
+            units = {}
+            for a in spec.args:
+                us = [u for u, _ in KINDS[a.kind] if not f32 or u in F32_DOMAIN[a.kind]]
+                if not a.vector:
+                    us = [u for u in us if feasible(a, u, dtypes[a.name])] or us
+                units[a.name] = us[int(rng.integers(len(us)))]
+            out.append((units, dtypes))
+        return out
+    return cells
+
+
 class Monitor:
     def __init__(self, ctx):
         self.ctx = ctx
@@ -239,42 +373,83 @@ def inelastic_cond(kind, kw):
     return t, t0, E, other
 
 
-def run_kernel_grid(rng, ctx, spec, fn, cells, tier, mon, point_index=0):
+def run_kernel_grid(rng, ctx, spec, fn, cells, tier, mon, point_index=0, layout=DENSE):
     n = 6
-    pt = draw_point(rng, spec, n)
+    pt = draw_point(rng, spec, n, force_integer=layout.others == 'per_bin')
     vecs = draw_vectors(rng, spec, n, point_index)
+    # operands that are not event data are constant over the events of a bin (per-bin operands) or over all
+    # events (0-D operands); rep[i] is the event whose values event i sees in them
+    rep = layout.rep(n)
+    for a in spec.args:
+        if a.name in layout.per_event:
+            continue
+        if a.vector:
+            if vecs[a.name].ndim == 2:
+                vecs[a.name] = vecs[a.name][rep]
+        else:
+            pt[a.name] = [pt[a.name][r] for r in rep]
     # inelastic: keep arrival well above t0 so that the definition is well conditioned (cond <= ~5)
     if spec.cond == 'inelastic':
         m = si.constants()['m_n']
         fixed = 'incident_energy' if 'incident_energy' in pt else 'final_energy'
         Lf = 'L1' if fixed == 'incident_energy' else 'L2'
+        t0_us, fac = [], []
         for i in range(n):
             E = si.ld(pt[fixed][i]) * si.ld(si.E_CHARGE) / 1000
-            t0_us = float(si.ld(pt[Lf][i]) * np.sqrt(m / (2 * E)) * 1e6)
-            k = int(np.ceil(t0_us * float(rng.uniform(1.5, 6.0)))) + 1
+            t0_us.append(float(si.ld(pt[Lf][i]) * np.sqrt(m / (2 * E)) * 1e6))
+            fac.append(float(rng.uniform(1.5, 6.0)))
+        for i in range(n):
+            # a dense tof next to event energies is shared by the events of a bin: above the largest t0 of them
+            grp = [i] if 'tof' in layout.per_event or layout.default else [j for j in range(n) if rep[j] == rep[i]]
+            k = int(np.ceil(max(t0_us[j] for j in grp) * fac[rep[i] if len(grp) > 1 else i])) + 1
             pt['tof'][i] = Fraction(k)
     canon_units = {a.name: KINDS[a.kind][0][0] for a in spec.args}
 
-    def build(units, dtypes):
+    def feasible(a, u, dt):
+        return all(express(v, a.kind, u, dt) is not None for v in pt[a.name])
+
+    if callable(cells):
+        cells = cells(feasible)
+    point_layout = layout
+
+    def build(units, dtypes, layout=layout):
         kw = {}
         for a in spec.args:
             u, dt = units[a.name], dtypes[a.name]
             if a.vector:
                 f = dict(KINDS[a.kind])[u]
-                kw[a.name] = make_var(vecs[a.name] / float(f), u, 'float64', vector=True)
+                v = vecs[a.name] / float(f)
+                if v.ndim == 2 and layout.others != 'x':
+                    v = v[EV_REP_BIN] if layout.others == 'per_bin' else v[0]
+                kw[a.name] = make_var(v, u, 'float64', vector=True)
                 continue
             vals = [express(v, a.kind, u, dt) for v in pt[a.name]]
             if any(v is None for v in vals):
                 return None
+            if a.name in layout.binned:
+                kw[a.name] = make_events(vals, u, dt)
+                continue
+            if a.name in layout.arrays:
+                kw[a.name] = make_var(vals, u, dt)
+                continue
+            if layout.others == 'per_bin':
+                kw[a.name] = make_var([vals[r] for r in EV_REP_BIN], u, dt)
+                continue
+            if layout.others == 'scalar':
+                kw[a.name] = sc.scalar(vals[0], unit=u, dtype=dt)
+                continue
             # gravity kernels: every other pair of points gives the wavelength its own dimension, so that
             # the result is 2-d (detector x wavelength) and the out-of-place broadcasting branch runs
-            own_dim = a.name == 'wavelength' and 'gravity' in vecs and (point_index // 2) % 2 == 1
+            own_dim = a.name == 'wavelength' and 'gravity' in vecs and (point_index // 2) % 2 == 1 and point_layout.default
             kw[a.name] = make_var(vals, u, dt, dim='w' if own_dim else 'x')
         return kw
 
-    base_kw = build(canon_units, {a.name: 'float64' for a in spec.args})
+    base_kw = build(canon_units, {a.name: 'float64' for a in spec.args}, DENSE)
     base = fn(**base_kw)
     base_out = {k: phys(v) for k, v in out_values(spec, base).items()}
+    if not layout.default and any(np.ndim(v) != 1 for v in base_out.values()):
+        ctx.inconclusive_because(f'{spec.name}: baseline of an event-data point is not one value per event')
+        return
     if spec.cond == 'inelastic':
         t, t0, E, other = inelastic_cond('direct' if 'incident_energy' in base_kw else 'indirect', base_kw)
         abs_scale = np.maximum(np.abs(E), np.abs(other)) * np.abs(t / (t - t0))
@@ -302,11 +477,13 @@ def run_kernel_grid(rng, ctx, spec, fn, cells, tier, mon, point_index=0):
             continue
         kw = build(units, dtypes)
         sig = (spec.name, tuple(units[a.name] for a in spec.args), tuple(dtypes[a.name] for a in spec.args))
+        if not layout.default:
+            sig = (*sig, layout.tag)
         if kw is None:
             ctx.count('cells skipped: value not an exact small integer in that unit')
             continue
         if spec.name == 'time_at_sample_from_tof' and any(
-                dtypes[n] == 'int32' and np.max(np.abs(np.asarray(kw[n].values, dtype=np.float64))) >= 46341
+                dtypes[n] == 'int32' and np.max(np.abs(np.asarray(flat(kw[n])[2], dtype=np.float64))) >= 46341
                 for n in ('L2', 'wavelength', 'tof', 'pulse_time')):
             # the property quantifies over integer operands whose squares are representable: an int32
             # operand of 46341 or more is outside it (this kernel multiplies two operands as they are)
@@ -326,6 +503,9 @@ def run_kernel_grid(rng, ctx, spec, fn, cells, tier, mon, point_index=0):
             want_dtype = None
         want_unit = spec.out(units)
         case = {'kernel': spec.name, 'units': units, 'dtypes': dtypes}
+        if not layout.default:
+            case['layout'] = layout.tag
+        lkeys = {} if layout.default else {'layout': 'events' if layout.binned else 'dense, 0-D operands'}
 
         def judge(ev, case=case, tol=tol, want_dtype=want_dtype, want_unit=want_unit, sig=sig, kw=kw, any32=any32):
             if ev.exc is not None:
@@ -333,37 +513,47 @@ def run_kernel_grid(rng, ctx, spec, fn, cells, tier, mon, point_index=0):
                     ctx.count('cells unsupported by scipp (DTypeError with int32)')
                     return
                 ctx.violation('raised', f'{spec.name} raised {type(ev.exc).__name__}: {ev.exc}',
-                              dict(case, args={k: describe(v) for k, v in kw.items()}), kernel=spec.name,
-                              exc=type(ev.exc).__name__, int_operand=any(d.startswith('int') for d in case['dtypes'].values()))
+                              dict(case, args={k: desc(v) for k, v in kw.items()}), kernel=spec.name,
+                              exc=type(ev.exc).__name__, int_operand=any(d.startswith('int') for d in case['dtypes'].values()),
+                              **lkeys)
                 return
             ctx.event(spec.name)
+            if not layout.default:
+                ctx.event(spec.name + (' [event data]' if layout.binned else ' [0-D operands]'))
+                note_layout_classes(ctx, spec, layout, case['dtypes'])
             try:
                 outs = out_values(spec, ev.result)
                 for key, var in outs.items():
                     label = spec.name + (f'[{key}]' if key else '')
-                    if var.unit != want_unit:
-                        ctx.violation('unit', f'{label}: output unit {var.unit}, documented {want_unit}', case,
-                                      kernel=spec.name)
+                    got_unit, got_dtype, got_vals = flat(var)
+                    if got_unit != want_unit:
+                        ctx.violation('unit', f'{label}: output unit {got_unit}, documented {want_unit}', case,
+                                      kernel=spec.name, **lkeys)
                         return
-                    if want_dtype is not None and var.dtype != want_dtype:
-                        ctx.violation('dtype', f'{label}: output dtype {var.dtype}, contract says {want_dtype}', case,
-                                      kernel=spec.name, got=str(var.dtype))
+                    if want_dtype is not None and got_dtype != want_dtype:
+                        ctx.violation('dtype', f'{label}: output dtype {got_dtype}, contract says {want_dtype}', case,
+                                      kernel=spec.name, got=str(got_dtype), **lkeys)
                         return
-                    got = phys(var)
+                    got = got_vals.astype(si.LD) * si.factor(got_unit)
                     want = base_out[key]
+                    if not layout.default and (got.shape != want.shape or (var.bins is None) != (not layout.binned)):
+                        ctx.violation('shape', f'{label}: result holds {got.shape} {"dense" if var.bins is None else "event"} '
+                                      f'values for {want.shape} {"event" if layout.binned else "dense"} values put in', case,
+                                      kernel=spec.name, **lkeys)
+                        return
                     if abs_scale is not None:
                         f = np.abs(got - want) / (tol * abs_scale)
                     else:
                         f = si.relerr(got, want) / tol
                     worst = float(np.max(f))
                     ctx.dev(f'{spec.name}{"[" + key + "]" if key else ""}.{"f32" if any32 else "f64"} (fraction of bound)', worst)
-                    if not np.all(np.isfinite(np.asarray(var.values, dtype=np.float64))) or worst > 1:
+                    if not np.all(np.isfinite(np.asarray(got_vals, dtype=np.float64))) or worst > 1:
                         i = int(np.argmax(f))
                         ctx.violation('not_equivariant', f'{label}: physical result changes by {worst:.3g} x bound when '
                                       f'inputs are re-expressed as {case["units"]} / {case["dtypes"]}',
                                       dict(case, got=repr(np.ravel(got)[i]), baseline=repr(np.ravel(want)[i]),
-                                           args={k: describe(v) for k, v in kw.items()}), kernel=spec.name,
-                                      int_operand=any(d.startswith('int') for d in case['dtypes'].values()))
+                                           args={k: desc(v) for k, v in kw.items()}), kernel=spec.name,
+                                      int_operand=any(d.startswith('int') for d in case['dtypes'].values()), **lkeys)
                         return
             except Exception:  # noqa: BLE001
                 ctx.oracle_error('C07 ' + spec.name)
@@ -378,10 +568,187 @@ def run_kernel_grid(rng, ctx, spec, fn, cells, tier, mon, point_index=0):
             ctx.inconclusive_because(f'monitor on {spec.name} did not observe the call')
         canonical = all(units[a.name] == canon_units[a.name] for a in spec.args) and all(
             d == 'float64' for d in dtypes.values())
-        ctx.case(sig, trivial=canonical)
+        ctx.case(sig, trivial=canonical and layout.default)
         if len(ctx.samples) < 4:
             ctx.sample({'kernel': spec.name, 'units': units, 'dtypes': dtypes,
-                        'args': {k: describe(v) for k, v in kw.items()}})
+                        'args': {k: desc(v) for k, v in kw.items()}})
+
+
+# ------------------------------------ nearly perpendicular incident beams ---
+# The gravity kernels choose their implementation (scattering_angle_in_yz_plane: refuse or compute) by the
+# component of the incident beam along gravity.  Unit equivariance quantifies over every geometry, so the
+# same nearly perpendicular beam (component 1e-12 ... 1e-3 of its length) is given in every beam unit.
+# Soundness (DESIGN 9.2, "C04 dispatch band"): the unchanged tree dispatches on an absolute 1e-10 in the
+# beam's own unit, located only to the rounding of a float64 dot product; at or below it the beam is
+# treated as exactly perpendicular, which differs from the general construction by the actual tilt.
+TILT_LADDER = [10.0 ** k for k in range(-12, -2)]
+DISPATCH = 1e-10
+NEARLY = 'nearly perpendicular incident beam: '
+
+
+def along_gravity(kw):
+    """(component of the incident beam along gravity in the beam's own unit, tilt in rad, |b1|)."""
+    b = np.asarray(kw['incident_beam'].values, dtype=si.LD)
+    g = np.asarray(kw['gravity'].values, dtype=si.LD)
+    c = np.abs(np.dot(b, g)) / np.sqrt(np.dot(g, g))
+    nb = np.sqrt(np.dot(b, b))
+    return c, c / nb, nb
+
+
+def run_gravity_tilt(rng, ctx, spec, fn, mon):
+    n = 4
+    yz = spec.name == 'scattering_angle_in_yz_plane'
+    beam_units = [u for u, _ in KINDS['beam']]
+    canon_units = {a.name: KINDS[a.kind][0][0] for a in spec.args}
+    wl = next(a for a in spec.args if a.name == 'wavelength')
+    for it, decade in enumerate(TILT_LADDER):
+        tau = decade * float(rng.uniform(1.0, 3.0))
+        sign = 1.0 if it % 2 == 0 else -1.0
+        rotated = (it // 2) % 2 == 1  # the whole geometry (beams and gravity) in a rotated frame
+        R = np.eye(3)
+        if rotated:
+            q, r = np.linalg.qr(rng.normal(size=(3, 3)))
+            R = q * np.sign(np.diag(r))
+            if np.linalg.det(R) < 0:
+                R[:, 0] = -R[:, 0]
+        ey, ez = R[:, 1], R[:, 2]
+        L = round(float(rng.uniform(2.0, 60.0)), 2)
+        d = rng.normal(size=(n, 3))
+        d[:, 2] = np.abs(d[:, 2]) + 0.5
+        d[:, 0] += 0.5
+        d = np.round(d * 4, 3)
+        vecs = {'gravity': -9.8125 * ey, 'incident_beam': L * (np.cos(tau) * ez + sign * np.sin(tau) * ey),
+                'scattered_beam': d @ R.T}
+        pt = draw_point(rng, spec, n, force_integer=it % 3 != 2)
+        own_dim = it % 2 == 1
+
+        def build(units, dtypes, vecs=vecs, pt=pt, own_dim=own_dim):
+            kw = {}
+            for a in spec.args:
+                u, dt = units[a.name], dtypes[a.name]
+                if a.vector:
+                    kw[a.name] = make_var(vecs[a.name] / float(dict(KINDS[a.kind])[u]), u, 'float64', vector=True)
+                    continue
+                vals = [express(v, a.kind, u, dt) for v in pt[a.name]]
+                if any(v is None for v in vals):
+                    return None
+                kw[a.name] = make_var(vals, u, dt, dim='w' if own_dim else 'x')
+            return kw
+
+        base_kw = build(canon_units, {a.name: 'float64' for a in spec.args})
+        c0, tilt0, nb0 = along_gravity(base_kw)
+        try:
+            base = fn(**base_kw)
+            base_dims = {k: v.dims for k, v in out_values(spec, base).items()}
+            base_out = {k: phys(v) for k, v in out_values(spec, base).items()}
+        except ValueError as e:
+            if not yz:
+                ctx.violation('raised', f'{spec.name} raised ValueError: {e}',
+                              {'kernel': spec.name, 'tilt_rad': tau, 'args': {k: desc(v) for k, v in base_kw.items()}},
+                              kernel=spec.name, exc='ValueError', int_operand=False, geometry='nearly perpendicular')
+                continue
+            base_out = base_dims = None  # refused
+        for ui in beam_units:
+            for us in beam_units:
+                dt = DTYPES[int(rng.choice(4, p=[0.5, 0.2, 0.2, 0.1]))]
+                wus = [u for u, _ in KINDS[wl.kind] if dt != 'float32' or u in F32_DOMAIN[wl.kind]]
+                wus = [u for u in wus if all(express(v, wl.kind, u, dt) is not None for v in pt['wavelength'])]
+                if not wus:
+                    dt, wus = 'float64', [u for u, _ in KINDS[wl.kind]]
+                units = {'incident_beam': ui, 'scattered_beam': us, 'wavelength': wus[int(rng.integers(len(wus)))],
+                         'gravity': KINDS['accel'][int(rng.integers(len(KINDS['accel'])))][0]}
+                dtypes = {a.name: 'float64' for a in spec.args}
+                dtypes['wavelength'] = dt
+                kw = build(units, dtypes)
+                c1, tilt1, nb1 = along_gravity(kw)
+                # threshold located to the rounding of the float64 dot product |g.b1| (8 eps |b1|) and of its scaling
+                in_band = bool(c0 <= DISPATCH * (1 + 1e-6) + 8 * si.EPS64 * nb0
+                               or c1 <= DISPATCH * (1 + 1e-6) + 8 * si.EPS64 * nb1)
+                tilt = float(max(tilt0, tilt1))
+                tol = (TOL32 if dt == 'float32' else TOL64) + (2 * tilt if in_band else 0.0)
+                want_dtype = sc.DType.float32 if dt == 'float32' else sc.DType.float64
+                case = {'kernel': spec.name, 'units': units, 'dtypes': dtypes, 'tilt_rad': tilt,
+                        'component_along_gravity': {'m (baseline)': float(c0), ui: float(c1)},
+                        'rotated_frame': rotated, 'wavelength_dim': 'w' if own_dim else 'x'}
+                keys = {'kernel': spec.name, 'geometry': 'nearly perpendicular'}
+
+                def judge(ev, case=case, tol=tol, want_dtype=want_dtype, kw=kw, in_band=in_band, ui=ui, dt=dt,
+                          base_out=base_out, base_dims=base_dims, keys=keys):
+                    refused = yz and isinstance(ev.exc, ValueError)
+                    if ev.exc is not None and not refused:
+                        if isinstance(ev.exc, sc.DTypeError) and dt == 'int32':
+                            ctx.count('cells unsupported by scipp (DTypeError with int32)')
+                            return
+                        ctx.violation('raised', f'{spec.name} raised {type(ev.exc).__name__}: {ev.exc}',
+                                      dict(case, args={k: desc(v) for k, v in kw.items()}),
+                                      exc=type(ev.exc).__name__, int_operand=dt.startswith('int'), **keys)
+                        return
+                    if refused != (base_out is None):
+                        if in_band:
+                            ctx.count('undecided: refusal differs between units inside the dispatch band (1e-10 in the '
+                                      "beam's own unit)")
+                            return
+                        ctx.event(spec.name + ' [nearly perpendicular]')
+                        ctx.violation('unit_dependent_refusal',
+                                      f'{spec.name}: the same geometry (tilt {case["tilt_rad"]:.3g} rad) is '
+                                      f'{"refused" if refused else "accepted"} with the incident beam in {ui} and '
+                                      f'{"refused" if base_out is None else "accepted"} in m',
+                                      dict(case, args={k: desc(v) for k, v in kw.items()}), **keys)
+                        return
+                    ctx.event(spec.name + ' [nearly perpendicular]')
+                    ctx.hit(NEARLY + ('dispatch band (allowance 2 x tilt)' if in_band else
+                                      'component above 1e-10 in every compared unit (rounding only)'))
+                    ctx.hit(NEARLY + 'beams in ' + ui)
+                    if refused:
+                        ctx.hit(NEARLY + 'refused in every compared unit')
+                        return
+                    try:
+                        for key, var in out_values(spec, ev.result).items():
+                            label = spec.name + (f'[{key}]' if key else '')
+                            if var.unit != sc.Unit('rad'):
+                                ctx.violation('unit', f'{label}: output unit {var.unit}, documented rad', case, **keys)
+                                return
+                            if var.dtype != want_dtype:
+                                ctx.violation('dtype', f'{label}: output dtype {var.dtype}, contract says {want_dtype}',
+                                              case, got=str(var.dtype), **keys)
+                                return
+                            if set(var.dims) == set(base_dims[key]):
+                                var = var.transpose(base_dims[key])
+                            got, want = phys(var), base_out[key]
+                            if got.shape != want.shape:
+                                ctx.violation('shape', f'{label}: result shape {got.shape}, baseline {want.shape}', case,
+                                              **keys)
+                                return
+                            f = np.abs(got - want) / tol
+                            worst = float(np.max(f))
+                            ctx.dev(f'{label} nearly perpendicular{" (dispatch band)" if in_band else ""}.'
+                                    f'{"f32" if dt == "float32" else "f64"} (fraction of bound)', worst)
+                            if not np.all(np.isfinite(np.asarray(var.values, dtype=np.float64))) or worst > 1:
+                                i = int(np.argmax(f))
+                                ctx.violation('not_equivariant',
+                                              f'{label}: result changes by {worst:.3g} x bound ({tol:.3g} rad) when a beam '
+                                              f'tilted by {case["tilt_rad"]:.3g} rad against the perpendicular is '
+                                              f're-expressed as {case["units"]}',
+                                              dict(case, got=repr(np.ravel(got)[i]), baseline=repr(np.ravel(want)[i]),
+                                                   args={k: desc(v) for k, v in kw.items()}),
+                                              int_operand=dt.startswith('int'), **keys)
+                                return
+                    except Exception:  # noqa: BLE001
+                        ctx.oracle_error('C07 nearly perpendicular ' + spec.name)
+
+                mon.expect = {'kernel': spec.name, 'judge': judge}
+                try:
+                    fn(**kw)
+                except Exception:  # noqa: BLE001  judged through PY_UNWIND
+                    pass
+                if mon.expect is not None:
+                    mon.expect = None
+                    ctx.inconclusive_because(f'monitor on {spec.name} did not observe the call')
+                ctx.case((spec.name, 'nearly perpendicular', f'1e{int(np.floor(np.log10(tau)))}', ui, us,
+                          units['wavelength'], dt, units['gravity']))
+
+
+GRAVITY_KERNELS = [s.name for s in SPECS if any(a.name == 'gravity' for a in s.args)]
 
 
 def all_cells(spec):
@@ -400,11 +767,38 @@ def plan(tier, seed):
     for i in range(0, len(SPECS), per):
         shards.append({'kernels': [s.name for s in SPECS[i:i + per]],
                        'cells': 3000 if tier == 'quick' else 140000, 'points': 2 if tier == 'quick' else 2})
+    # the forced classes (event-data / 0-D layouts, nearly perpendicular beams) in shards of their own
+    with_layouts = [s.name for s in SPECS if layouts_of(s)]
+    heavy = [[n] for n in with_layouts if n.startswith('energy_transfer')] + [list(GRAVITY_KERNELS)]
+    rest = [n for n in with_layouts if not any(n in h for h in heavy)]
+    for group in [*heavy, rest[:len(rest) // 2], rest[len(rest) // 2:]]:
+        shards.append({'part': 'classes', 'kernels': group, 'rounds': 1 if tier == 'quick' else 6})
     return shards
 
 
+FORCED = [
+    'dense data operand with 0-D other operands',
+    'event data with per-bin dense operands', 'event data with 0-D dense operands',
+    'event data: float32 events', 'event data: float64 events', 'event data: int64 events',
+    'event data: float32 events with a float64/integer dense operand',
+    'event data: float32 events with a dense DATA operand that is not float32 (contract: float64)',
+    'event data: float32 events with a float32 dense data operand (contract: float32)',
+    'event data: all data operands of a two-data-operand kernel are events',
+    NEARLY + 'dispatch band (allowance 2 x tilt)',
+    NEARLY + 'component above 1e-10 in every compared unit (rounding only)',
+    NEARLY + 'refused in every compared unit',
+] + [NEARLY + 'beams in ' + u for u, _ in KINDS['beam']]
+
+
 def requirements(tier):
-    return {'events': {s.name: 20 for s in SPECS}}
+    ev = {s.name: 20 for s in SPECS}
+    for s in SPECS:
+        if layouts_of(s):
+            ev[s.name + ' [event data]'] = 8
+            ev[s.name + ' [0-D operands]'] = 4
+    for k in GRAVITY_KERNELS:
+        ev[k + ' [nearly perpendicular]'] = 40
+    return {'events': ev, 'forced': list(FORCED)}
 
 
 def run(shard, ctx):
@@ -418,11 +812,32 @@ def run(shard, ctx):
         ctx.inconclusive_because('unit table cross-check failed: ' + '; '.join(bad))
         return
     rng = np.random.Generator(np.random.PCG64([shard['seed'], shard['index'], 7]))
+    rng2 = np.random.Generator(np.random.PCG64([shard['seed'], shard['index'], 11]))  # layout / geometry classes
     mon = Monitor(ctx)
     tr = Tracer()
     for s in SPECS:
         tr.watch(getattr(mods[s.mod], s.name), s.name, on_return=mon.handler(s.name))
     full = {}
+    if shard.get('part') == 'classes':
+        # forced classes, the same in every run
+        with tr:
+            for name in shard['kernels']:
+                spec = SPEC_BY_NAME[name]
+                fn = getattr(mods[spec.mod], spec.name)
+                lays = layouts_of(spec)
+                for rnd in range(shard['rounds']):
+                    # event-data / 0-D layouts x the dtype product ...
+                    for il, lay in enumerate(lays):
+                        run_kernel_grid(rng2, ctx, spec, fn, layout_cells(rng2, spec), shard['tier'], mon,
+                                        il + rnd * len(lays), layout=lay)
+                    # ... and nearly perpendicular incident beams x every beam unit for the gravity kernels
+                    if name in GRAVITY_KERNELS:
+                        run_gravity_tilt(rng2, ctx, spec, fn, mon)
+                full[name] = {'layouts': [lay.tag for lay in lays], 'rounds': shard['rounds']}
+                if name in GRAVITY_KERNELS:
+                    full[name]['nearly_perpendicular_tilts'] = len(TILT_LADDER) * shard['rounds']
+        ctx.extra['classes_' + '_'.join(shard['kernels'])] = full
+        return
     with tr:
         for name in shard['kernels']:
             spec = SPEC_BY_NAME[name]
@@ -453,7 +868,10 @@ LEVEL_TEXT = ('exploration: for each of 20 kernels, physical points are re-expre
               'dtype grid (sampled in quick, complete up to a reported cap in thorough); the observed result must carry '
               'the documented unit and dtype and the same physical value as the canonical-unit float64 call within '
               '1e-11 (1e-5 with single-precision operands) times the conditioning of the definition. A finite grid '
-              'per physical point; points are sampled.')
+              'per physical point; points are sampled. Every run also drives each data operand as binned event data '
+              '(and with 0-D operands) through the full dtype product, and the gravity kernels with nearly '
+              'perpendicular incident beams through every beam-unit pair (same result to rounding, same '
+              'refuse/accept decision of the yz variant, outside the documented dispatch band).')
 LEVEL_NOTE = ('trusted: the canonical-unit float64 results (decided by C01/C03/C04/C05/C08), the independent SI table, '
               'scipp DTypeError as the sign of arithmetic scipp does not support')
 DESIGN_REF = 'DESIGN.md section 4, C07'
